@@ -29,7 +29,7 @@ func isLookupFunc(fn *types.Func) bool {
 }
 
 func checkC04(ctx *Ctx, r *Report) {
-	r.Explanation = "Twelve structural clauses, each a sufficient condition for a part of the property (a reported site is a potential panic/hang; on the pinned tree every reported site was triaged): (1) bounded recursion through references — on the cog-only call graph (static calls, interface calls by class hierarchy, func-typed fields by the values stored into them), every recursive call whose argument derives from the result of an object lookup / reference resolution is guarded: by a visited set or depth bound, or by a dominating kind test restricting the looked-up type to a leaf kind (scalar/enum: nothing to descend into); closures bound to a local variable and calling it are recursion too; lookups include every function returning what a Locate*/Resolve* function returned; loops whose variable is reassigned from a lookup result leave on an already visited reference; (2) no explicit panic(...) is reachable from the pipeline entry points; (3) single-value type assertions on `any` values are dominated by a comma-ok assertion / type switch on the same expression or sit in the reviewed table; (4) pointers returned with a found-flag/error by cog lookups are not used where the flag was discarded; (5) in the JSON-family parsers, constant indexing into slices owned by the schema libraries is dominated by a length / non-nil / type-presence guard; (6) selections through the kind-specific pointer members of ast.Type (.Scalar, .Ref, .Array, …) on an indexed or ranged collection element are dominated by a kind test on that element (or by a kind-equality with a tested element); (7) every access to a kind-specific member of ast.Type anywhere in cog (AsStruct(), .Struct.…, *.Scalar, …: the accessors dereference a pointer that is nil for any other kind) is dominated by a test that the same access path has that kind — recognised: enclosing conditions, && / || operands, switch on Kind, loop conditions, earlier exit guards, boolean locals, kind-equality with a tested path, Visitor On<K> callbacks, values built by a constructor of that kind, copies and aliases, cog predicates whose body implies a kind (summaries derived from source), (Type, bool) resolvers whose true result has one kind, and — for parameters — the same test at every call site up to five levels up (interface calls included); the type of an enum member is a scalar by construction (checked on every producer); 20 accesses sit in a reviewed table; (8) every constant index into a slice or a string (x.Args[0], parts[1], input[0]) is dominated by a length test on the same access path (len comparisons, non-empty string tests, HasPrefix, switch on len, literals / strings.Split / make of known length, aliases, and — for parameters — every call site), or relies on one of three IR invariants checked on their producers (enums have members, unions have branches, constraints carry an argument), or sits in a reviewed table (38 entries, 20 of them statements about the CUE API); (9) every selection through a pointer member of the IR other than the kind members (Option.Default, PathItem.Index / TypeHint, AssignmentValue.Argument / Envelope, PathIndex.Argument, factory arguments: 44 sites) is dominated by a non-nil test on the same access path, follows an assignment of an address in the same function, or sits in a reviewed table (8 entries); (10) every set that is both probed and filled in a function derives its keys the same way on both sides (a visited set probed with other keys than it is filled with never stops a worklist)."
+	r.Explanation = "Thirteen structural clauses, each a sufficient condition for a part of the property (a reported site is a potential panic/hang; on the pinned tree every reported site was triaged): (1) bounded recursion through references — on the cog-only call graph (static calls, interface calls by class hierarchy, func-typed fields by the values stored into them), every recursive call whose argument derives from the result of an object lookup / reference resolution is guarded: by a visited set or depth bound, or by a dominating kind test restricting the looked-up type to a leaf kind (scalar/enum: nothing to descend into); closures bound to a local variable and calling it are recursion too; lookups include every function returning what a Locate*/Resolve* function returned; loops whose variable is reassigned from a lookup result leave on an already visited reference; a loop that runs until a queue is empty while functions reachable from its body refill that queue skips entries it has already handled; (2) no explicit panic(...) is reachable from the pipeline entry points; (3) single-value type assertions on `any` values are dominated by a comma-ok assertion / type switch on the same expression or sit in the reviewed table; (4) pointers returned with a found-flag/error by cog lookups are not used where the flag was discarded; (5) in the JSON-family parsers, constant indexing into slices owned by the schema libraries is dominated by a length / non-nil / type-presence guard; (6) selections through the kind-specific pointer members of ast.Type (.Scalar, .Ref, .Array, …) on an indexed or ranged collection element are dominated by a kind test on that element (or by a kind-equality with a tested element); (7) every access to a kind-specific member of ast.Type anywhere in cog (AsStruct(), .Struct.…, *.Scalar, …: the accessors dereference a pointer that is nil for any other kind) is dominated by a test that the same access path has that kind — recognised: enclosing conditions, && / || operands, switch on Kind, loop conditions, earlier exit guards, boolean locals, kind-equality with a tested path, Visitor On<K> callbacks, values built by a constructor of that kind, copies and aliases, cog predicates whose body implies a kind (summaries derived from source), (Type, bool) resolvers whose true result has one kind, and — for parameters — the same test at every call site up to five levels up (interface calls included); the type of an enum member is a scalar by construction (checked on every producer); 20 accesses sit in a reviewed table; (8) every constant index into a slice or a string (x.Args[0], parts[1], input[0]) is dominated by a length test on the same access path (len comparisons, non-empty string tests, HasPrefix, switch on len, literals / strings.Split / make of known length, aliases, and — for parameters — every call site), or relies on one of three IR invariants checked on their producers (enums have members, unions have branches, constraints carry an argument), or sits in a reviewed table (38 entries, 20 of them statements about the CUE API); (9) every selection through a pointer member of the IR other than the kind members (Option.Default, PathItem.Index / TypeHint, AssignmentValue.Argument / Envelope, PathIndex.Argument, factory arguments: 44 sites) is dominated by a non-nil test on the same access path, follows an assignment of an address in the same function, or sits in a reviewed table (8 entries); (10) every set that is both probed and filled in a function derives its keys the same way on both sides (a visited set probed with other keys than it is filled with never stops a worklist)."
 	r.NotCovered = "non-constant indexes, IR values given literally in configuration files (add_object, retype_field: trusted to be well-formed enums / unions / constraints), nil dereference of other pointers (Object lookups through Get on missing keys, PathItem.Index, OptionDefault), stack depth on deeply nested acyclic input, time/space blow-up, panics inside third-party libraries."
 	r.Exhaustive = true
 	r.Assumptions = []string{"text/template converts a panic inside a template function into an error (safeCall): functions only invoked from templates are not entry-point reachable by static edges", "library slices are either nil or populated (a non-nil test is accepted as a guard for index 0)"}
@@ -39,6 +39,7 @@ func checkC04(ctx *Ctx, r *Report) {
 	r.Count("call graph nodes", len(g.nodes))
 	like := c04Recursion(ctx, r, g)
 	c04RefLoops(ctx, r, like)
+	c04Worklists(ctx, r, g)
 	c04Panics(ctx, r, g)
 	c04Assertions(ctx, r)
 	c04Lookups(ctx, r)
@@ -50,6 +51,7 @@ func checkC04(ctx *Ctx, r *Report) {
 	c04ConstantIndexes(ctx, r, eng)
 	c04NonEmptyInvariants(ctx, r)
 	c04NilGuardedMembers(ctx, r, eng)
+	cfgNilEntries(ctx, r)
 }
 
 // ---------------------------------------------------------------------------
@@ -1624,4 +1626,163 @@ func c04RefLoops(ctx *Ctx, r *Report, like map[*types.Func]bool) {
 	})
 	r.Count("reference-following loops", n)
 	r.Floor("reference-following loops", 5)
+}
+
+// c04Worklists: a loop that runs until a queue is empty while the work done in its body can put entries back into that
+// queue terminates only if entries already handled are recognised: the body must skip (return / continue) on a membership
+// test over a set it fills.
+func c04Worklists(ctx *Ctx, r *Report, g *callGraph) {
+	n := 0
+	// who inserts into which field: field object -> functions containing `X.f.Set(…)`, `X.f = append(X.f, …)`, `X.f[k] = v`
+	inserters := map[*types.Var]map[*types.Func]bool{}
+	for fn, node := range g.nodes {
+		info := node.pkg.TypesInfo
+		ast.Inspect(node.decl.Body, func(m ast.Node) bool {
+			var target ast.Expr
+			switch x := m.(type) {
+			case *ast.CallExpr:
+				if sel, ok := x.Fun.(*ast.SelectorExpr); ok && (sel.Sel.Name == "Set" || sel.Sel.Name == "Add") {
+					target = sel.X
+				}
+			case *ast.AssignStmt:
+				for i, l := range x.Lhs {
+					if ix, ok := ast.Unparen(l).(*ast.IndexExpr); ok {
+						target = ix.X
+					}
+					if i < len(x.Rhs) {
+						if c, ok := ast.Unparen(x.Rhs[i]).(*ast.CallExpr); ok {
+							if id, ok := c.Fun.(*ast.Ident); ok && id.Name == "append" {
+								target = l
+							}
+						}
+					}
+				}
+			}
+			if target != nil {
+				if f := fieldOf(info, target); f != nil {
+					if inserters[f] == nil {
+						inserters[f] = map[*types.Func]bool{}
+					}
+					inserters[f][fn] = true
+				}
+			}
+			return true
+		})
+	}
+	for fn, node := range g.nodes {
+		info := node.pkg.TypesInfo
+		idx := 0
+		ast.Inspect(node.decl.Body, func(m ast.Node) bool {
+			loop, ok := m.(*ast.ForStmt)
+			if !ok {
+				return true
+			}
+			// queues whose emptiness ends the loop
+			queues := map[*types.Var]string{}
+			noteQueue := func(cond ast.Expr) {
+				ast.Inspect(cond, func(k ast.Node) bool {
+					c, ok := k.(*ast.CallExpr)
+					if !ok {
+						return true
+					}
+					var q ast.Expr
+					if id, ok := c.Fun.(*ast.Ident); ok && id.Name == "len" && len(c.Args) == 1 {
+						q = c.Args[0]
+					}
+					if sel, ok := c.Fun.(*ast.SelectorExpr); ok && sel.Sel.Name == "Len" {
+						q = sel.X
+					}
+					if q != nil {
+						if f := fieldOf(info, q); f != nil {
+							queues[f] = exprString(q)
+						}
+					}
+					return true
+				})
+			}
+			if loop.Cond != nil {
+				noteQueue(loop.Cond)
+			}
+			for _, st := range loop.Body.List {
+				if is, ok := st.(*ast.IfStmt); ok && len(is.Body.List) == 1 {
+					if b, ok := is.Body.List[0].(*ast.BranchStmt); ok && b.Tok == token.BREAK {
+						noteQueue(is.Cond)
+					}
+				}
+			}
+			if len(queues) == 0 {
+				return true
+			}
+			// functions reachable from the calls of the body
+			var roots []*types.Func
+			ast.Inspect(loop.Body, func(k ast.Node) bool {
+				if c, ok := k.(*ast.CallExpr); ok {
+					if f := callee(info, c); f != nil {
+						roots = append(roots, f.Origin())
+					}
+				}
+				return true
+			})
+			reach := g.reachableFrom(roots)
+			for q, qs := range queues {
+				refilledBy := ""
+				for f := range inserters[q] {
+					if _, ok := reach[f]; ok && f != fn {
+						refilledBy = ctx.FuncName(f)
+					}
+				}
+				if refilledBy == "" {
+					continue
+				}
+				n++
+				idx++
+				cons := fmt.Sprintf("%s worklist on %s", ctx.FuncName(fn), qs)
+				// a skip on a membership test over a set filled in the loop
+				guard := ""
+				ast.Inspect(loop.Body, func(k ast.Node) bool {
+					is, ok := k.(*ast.IfStmt)
+					if !ok || len(is.Body.List) == 0 {
+						return true
+					}
+					exits := false
+					switch last := is.Body.List[len(is.Body.List)-1].(type) {
+					case *ast.ReturnStmt:
+						exits = true
+					case *ast.BranchStmt:
+						exits = last.Tok == token.CONTINUE
+					}
+					if !exits {
+						return true
+					}
+					check := func(e ast.Node) {
+						ast.Inspect(e, func(z ast.Node) bool {
+							switch x := z.(type) {
+							case *ast.IndexExpr:
+								if _, isMap := info.TypeOf(x.X).Underlying().(*types.Map); isMap && c04FilledBefore(info, node.decl, x.X, &ast.Ident{NamePos: loop.Body.End()}) {
+									guard = "entries already handled are skipped (" + exprString(x) + ")"
+								}
+							case *ast.CallExpr:
+								if f := callee(info, x); f != nil && (f.Name() == "Has" || f.Name() == "Contains") {
+									if sel, ok := x.Fun.(*ast.SelectorExpr); ok && c04FilledBefore(info, node.decl, sel.X, &ast.Ident{NamePos: loop.Body.End()}) {
+										guard = "entries already handled are skipped (" + exprString(x) + ")"
+									}
+								}
+							}
+							return true
+						})
+					}
+					check(is.Cond)
+					if is.Init != nil {
+						check(is.Init)
+					}
+					return true
+				})
+				r.Check(guard != "", "flow/worklist-visited", cons, loop.Pos(), guard,
+					fmt.Sprintf("the loop ends when %s is empty, and %s (reachable from its body) puts entries back into it; nothing in the body recognises an entry that was already handled: two entries that lead to each other (a recursive definition) keep the loop running forever", qs, refilledBy))
+			}
+			return true
+		})
+	}
+	r.Count("worklist loops", n)
+	r.Floor("worklist loops", 1)
 }
